@@ -8,6 +8,7 @@ Translated on every run.  Shape accepted (anything else fails closed):
         elif C2: ftype = E2
         ...
         else: break
+    [<name> = <expression>]*          # optional plain assignments
     return <boolean expression>
 
 The loop becomes PyK_c08.k_iter with fuel = 1 + nesting depth of the type term (every accepted
@@ -83,10 +84,12 @@ class K17Translator(FnTranslator):
         if f == "is_optional" and len(e.args) == 2 and ast.unparse(e.args[1]) == "self.get_field_resolved_type_params(fname)":
             pre, a = self.expr(e.args[0])
             return pre, f"(KBool (ty_is_optional {a}))"
-        if f == "is_type_var_any" and len(e.args) == 1 and isinstance(e.args[0], ast.Call) \
-                and ast.unparse(e.args[0].func) == "self.get_real_type" and len(e.args[0].args) == 2 \
-                and ast.unparse(e.args[0].args[0]) == "fname":
-            pre, a = self.expr(e.args[0].args[1])
+        if f == "self.get_real_type" and len(e.args) == 2 and ast.unparse(e.args[0]) == "fname":
+            # type encodings denote the type AFTER substitution of the specialisation's type parameters
+            # (an unresolved, unconstrained variable is the tag TypeVarAny): get_real_type is the identity on them
+            return self.expr(e.args[1])
+        if f == "is_type_var_any" and len(e.args) == 1:
+            pre, a = self.expr(e.args[0])
             return pre, f"(KBool (ty_is_typevar_any {a}))"
         return super().call(e)
 
@@ -101,8 +104,13 @@ def gen() -> str:
     if [a.arg for a in fn.args.args] != ["self", "fname", "ftype"]:
         raise Unsupported("is_field_nullable parameters")
     body = [s for s in fn.body if not (isinstance(s, ast.Expr) and isinstance(s.value, ast.Constant))]
-    if len(body) != 2 or not isinstance(body[0], ast.While) or not isinstance(body[1], ast.Return):
-        raise Unsupported("is_field_nullable is not `while True: ...; return ...`")
+    if len(body) < 2 or not isinstance(body[0], ast.While) or not isinstance(body[-1], ast.Return):
+        raise Unsupported("is_field_nullable is not `while True: ...; [assignments;] return ...`")
+    middle = body[1:-1]
+    for st in middle:       # plain assignments of new local names between the loop and the return
+        if not (isinstance(st, ast.Assign) and len(st.targets) == 1 and isinstance(st.targets[0], ast.Name)
+                and st.targets[0].id not in ("ftype", "fname", "self")):
+            raise Unsupported(f"statement between loop and return: {ast.unparse(st)[:60]}")
     loop = body[0]
     if not (isinstance(loop.test, ast.Constant) and loop.test.value is True) or loop.orelse or len(loop.body) != 1:
         raise Unsupported("loop shape")
@@ -130,7 +138,7 @@ def gen() -> str:
         pc, c = tr.expr(test)
         pv, v = tr.expr(value)
         step = tr.wrap(pc, f"(if k_truthy {c} then {tr.wrap(pv, f'Ok (Some {v})')} else {step})")
-    ret = tr.mexpr(body[1].value)
+    ret = tr.block(list(middle) + [body[-1]], None)
     text = HEADER.format(src="mashumaro/core/meta/code/builder.py (CodeBuilder.is_field_nullable)")
     text = text.replace("From Verif Require Import Regex PyK.", "From Verif Require Import Regex PyK PyK_c08.")
     text += f"Definition is_field_nullable_step (v_ftype: kv) : res (option kv) :=\n  {step}.\n\n"
